@@ -3,6 +3,7 @@
 package main
 
 import (
+	"encoding/json"
 	"flag"
 	"fmt"
 	"os"
@@ -19,6 +20,7 @@ func main() {
 	verif := flag.String("verif", "/verif", "verification directory (evidence, known findings)")
 	tier := flag.String("tier", "quick", "quick|thorough")
 	only := flag.String("only", "", "replay: re-evaluate and print only the obligation with this key (no evidence written)")
+	keysOnly := flag.Bool("keys", false, "print the keys of violated/undecided obligations as JSON and exit (no evidence written)")
 	flag.Parse()
 	if flag.NArg() < 1 {
 		fmt.Println("usage: vchk [flags] <property-id>")
@@ -65,6 +67,20 @@ func main() {
 		}
 		rep.SetConfig("")
 	}()
+	if *keysOnly {
+		var ks []string
+		for _, o := range rep.Obls {
+			if o.Status != core.Discharged {
+				ks = append(ks, o.Key)
+			}
+		}
+		b, _ := json.Marshal(ks)
+		fmt.Println(string(b))
+		os.Exit(0)
+	}
+	if *tier == "quick" || *tier == "thorough" {
+		rules.Controls(id, *repo, *verif, *tier, rep)
+	}
 	if *only != "" {
 		code := 0
 		n := 0
